@@ -39,9 +39,21 @@ pub fn run_oligo_in(recs: &[Vec<u8>], k: usize, norm: bool, threads: usize, deli
             if container == "fa-wrap" { for ch in r.chunks(7) { bytes.extend_from_slice(ch); bytes.push(b'\n'); } } else { bytes.extend_from_slice(r); bytes.push(b'\n'); }
         }
     }
-    let gz = container.ends_with("-gz");
+    let gz = container.ends_with("-gz") || container.ends_with("-gzm");
     let inp = sc.path(&format!("in.{}{}", if fq { "fq" } else { "fa" }, if gz { ".gz" } else { "" }));
-    if gz {
+    if container.ends_with("-gzm") {
+        // multi-member gzip: the byte stream cut at a record boundary near the middle, each half its own member
+        let mut cut = bytes.len() / 2;
+        while cut < bytes.len() && !(bytes[cut] == b'>' && bytes[cut - 1] == b'\n') { cut += 1; }
+        let mut outb = Vec::new();
+        for part in [&bytes[..cut], &bytes[cut..]] {
+            if part.is_empty() { continue; }
+            let mut e = flate2::write::GzEncoder::new(Vec::new(), flate2::Compression::default());
+            e.write_all(part).unwrap();
+            outb.extend(e.finish().unwrap());
+        }
+        bytes = outb;
+    } else if gz {
         let mut e = flate2::write::GzEncoder::new(Vec::new(), flate2::Compression::default());
         e.write_all(&bytes).unwrap();
         bytes = e.finish().unwrap();
@@ -206,6 +218,24 @@ pub fn c14(o: &Opts) -> Outcome {
             }
         }
     }
+    // the mapped file must have exactly header + records x row bytes even when the output path already holds a larger file
+    {
+        let sc = Scratch::new("stale");
+        let out = sc.path("out.txt");
+        for (n, tag) in [(5usize, "first"), (2, "second")] {
+            let recs: Vec<Vec<u8>> = (0..n).map(|i| format!("ACGTACGTAC{}", "G".repeat(i)).into_bytes()).collect();
+            let inp = sc.path(&format!("{}.fa", tag));
+            write_fasta(&inp, &recs);
+            let (i2, o2) = (inp.clone(), out.clone());
+            let _ = guarded(move || { let mut c = composition::oligo::OligoComputer::new(i2, o2, 2); c.set_threads(2); c.vectorise() });
+            cases += 1;
+            let len = std::fs::metadata(&out).map(|m| m.len()).unwrap_or(0) as usize;
+            let row = 10 * 8 + 9 + 1;
+            if len != n * row {
+                return Outcome { cases, witness: Some(vec![("k".into(), "2".into()), ("why".into(), format!("run '{}' into an existing output path: file has {} bytes, expected {} records x {} bytes", tag, len, n, row))]) };
+            }
+        }
+    }
     for delim in ["", " ", ",", "\t", "\u{00B7}", "\u{2192}", "ab", ";;;"] {
         for k in 1..=3usize {
             for header in [false, true] {
@@ -254,13 +284,22 @@ pub fn c05(o: &Opts) -> Outcome {
         let recs: Vec<Vec<u8>> = inp["records"].split('|').map(unshow).collect();
         return Outcome { cases: 1, witness: one(&recs, inp["k"].parse().unwrap(), inp["norm"] == "true", inp["threads"].parse().unwrap(), inp["mem"].parse().unwrap(), inp["header"] == "true", &inp["delim"]) };
     }
+    // records without bases at the end of the input (and everywhere): one all-zero row each on both writer paths
+    for recs in [vec![b"ACGTACGT".to_vec(), vec![], vec![]], vec![vec![], vec![]], vec![vec![], b"ACGGT".to_vec(), vec![]]] {
+        for norm in [false, true] {
+            for mem in [1usize, 6, 4 << 30] {
+                cases += 1;
+                if let Some(w) = one(&recs, 2, norm, 2, mem, false, " ") { return Outcome { cases, witness: Some(w) }; }
+            }
+        }
+    }
     // the same records through every container give the same bytes
     for round in 0..(if o.thorough { 12 } else { 3 }) {
         let n = 2 + rng.below(20) as usize;
         let recs: Vec<Vec<u8>> = (0..n).map(|_| { let l = 1 + rng.below(120) as usize; random_seq(&mut rng, l, 10).iter().map(|&b| if b < 0x21 || b > 0x7e || b == b'>' || b == b'@' || b == b'+' { b'N' } else { b }).collect() }).collect();
         for norm in [true, false] {
             let base = run_oligo_in(&recs, 1 + round % 3, norm, 2, " ", false, None, "fa");
-            for c in ["fa-wrap", "fq", "fa-gz", "fq-gz"] {
+            for c in ["fa-wrap", "fq", "fa-gz", "fq-gz", "fa-gzm"] {
                 cases += 1;
                 let other = run_oligo_in(&recs, 1 + round % 3, norm, 2, " ", false, None, c);
                 if other != base {
